@@ -13,8 +13,14 @@ def find_time_filter(op, time_column_name):
             raise PlanningException('Can provide only one filter by predictor order_by column, found two')
 
         return left or right
-    elif ((isinstance(op.args[0], Identifier) and op.args[0].parts[-1].lower() == time_column_name.lower()) or
-          (isinstance(op.args[1], Identifier) and op.args[1].parts[-1].lower() == time_column_name.lower())):
+    elif isinstance(op.args[0], Identifier) and op.args[0].parts[-1].lower() == time_column_name.lower():
+        return op
+    elif isinstance(op.args[1], Identifier) and op.args[1].parts[-1].lower() == time_column_name.lower():
+        mirrored = {'>': '<', '>=': '<=', '<': '>', '<=': '>=', '=': '='}
+        if isinstance(op, BinaryOperation) and op.op in mirrored:
+            # `5 < time` is `time > 5`: the planner works with the column-first form
+            op.args = [op.args[1], op.args[0]]
+            op.op = mirrored[op.op]
         return op
 
 
